@@ -38,6 +38,10 @@ CLAIMED = {
           "Seeded arrival orders of signed transactions of 3 signers with gaps, duplicates, stale / far-future / wrong-chain transactions, idle gaps and reorgs, plus window-edge scenarios (1-3 parked nonces, every arrival order, ages 8..12); the model predicts receipts per call, nonces, indexes, account nonce and the txpool view. Sampling, with a small enumerated corner.",
           "Replacement of a waiting nonce modelled as last-wins; entries expiring on the neighbouring block may or may not be listed by txpool_content.",
           "DESIGN.md 4 C08"),
+  "C09": ("exploration", "deterministic simulation: seeded hostile request injection in varied engine states with panic / process-death / no-progress monitors and liveness + write probes",
+          "Seeded preparation histories (empty database, mid-block, after reorgs) followed by hostile requests over the live method table (parameter mutations, payload encodings, random bytecode, ABI-valid and -invalid precompile input, garbage RLP); monitors: caught panics, worker death, 45 s no-progress watchdog with confirmation re-run, liveness probe after every request and write probe every 8th and at the end. Sampling, not proof.",
+          "Input generation finds the decoder panics; the simulated part is the stateful follow-up (wedged engine, poisoned lock, hang). Work-bounding parameters (block_count, inscription_byte_len) only take small values. Bitcoin-node panics are classified as environment.",
+          "DESIGN.md 4 C09"),
   "C10": ("exploration", "deterministic simulation: read requests injected at every boundary / mid-block, before/after observation, twin without reads, on-disk comparison after commit",
           "Seeded histories with executing reads running state-mutating bytecode (eth_call, eth_callMany with carry-over/overrides, estimateGas(Many), brc20_balance) and getters; oracles: observation unchanged by each read, equality with a twin that never reads, and key-by-key equality of all RocksDB directories after a final commit. Sampling, not proof.",
           "mineTimestamp masked in stored block rows.",
